@@ -42,6 +42,8 @@ struct MessageAdmission<'a>(&'a ActorProperties);
 
 impl Drop for MessageAdmission<'_> {
     fn drop(&mut self) {
+        #[cfg(feature = "verif")]
+        crate::verif::point("ticket.release");
         let previous = self.0.message_admission.fetch_sub(1, Ordering::AcqRel);
         debug_assert_ne!(previous & MESSAGE_ADMISSION_COUNT_MASK, 0);
         if previous & MESSAGE_ADMISSION_CLOSED != 0 && previous & MESSAGE_ADMISSION_COUNT_MASK == 1
@@ -195,6 +197,8 @@ impl ActorProperties {
     where
         TMessage: Message,
     {
+        #[cfg(feature = "verif")]
+        crate::verif::point("send.status");
         let status = self.get_status();
         if status >= ActorStatus::Draining {
             // if currently draining, stopping or stopped: reject messages directly.
@@ -204,9 +208,13 @@ impl ActorProperties {
         let Some(_admission) = self.try_admit_message() else {
             return Err(MessagingErr::SendErr(message));
         };
+        #[cfg(feature = "verif")]
+        crate::verif::point("send.box");
         let boxed = message
             .box_message(&self.id)
             .map_err(|_e| MessagingErr::InvalidActorType)?;
+        #[cfg(feature = "verif")]
+        crate::verif::point("send.enqueue");
         self.message
             .send(MuxedMessage::Message(boxed))
             .map_err(|e| match e.0 {
@@ -216,6 +224,8 @@ impl ActorProperties {
     }
 
     fn try_admit_message(&self) -> Option<MessageAdmission<'_>> {
+        #[cfg(feature = "verif")]
+        crate::verif::point("admit.load");
         let mut state = self.message_admission.load(Ordering::Relaxed);
         loop {
             if state & MESSAGE_ADMISSION_CLOSED != 0 {
@@ -223,6 +233,8 @@ impl ActorProperties {
             }
             debug_assert!(state & MESSAGE_ADMISSION_COUNT_MASK < MESSAGE_ADMISSION_COUNT_MASK);
 
+            #[cfg(feature = "verif")]
+            crate::verif::point("admit.cas");
             match self.message_admission.compare_exchange_weak(
                 state,
                 state + 1,
@@ -236,11 +248,15 @@ impl ActorProperties {
     }
 
     fn close_message_admission(&self) {
+        #[cfg(feature = "verif")]
+        crate::verif::point("drain.close");
         self.message_admission
             .fetch_or(MESSAGE_ADMISSION_CLOSED, Ordering::AcqRel);
     }
 
     fn send_drain_marker(&self) -> Result<(), MessagingErr<()>> {
+        #[cfg(feature = "verif")]
+        crate::verif::point("marker.load");
         let mut state = self.message_admission.load(Ordering::Acquire);
         loop {
             if state & MESSAGE_ADMISSION_CLOSED == 0
@@ -250,6 +266,8 @@ impl ActorProperties {
                 return Ok(());
             }
 
+            #[cfg(feature = "verif")]
+            crate::verif::point("marker.cas");
             match self.message_admission.compare_exchange_weak(
                 state,
                 state | DRAIN_MARKER_SENT,
@@ -257,6 +275,8 @@ impl ActorProperties {
                 Ordering::Acquire,
             ) {
                 Ok(_) => {
+                    #[cfg(feature = "verif")]
+                    crate::verif::point("marker.enqueue");
                     return self
                         .message
                         .send(MuxedMessage::Drain)
@@ -269,6 +289,8 @@ impl ActorProperties {
 
     pub(crate) fn drain(&self) -> Result<(), MessagingErr<()>> {
         self.close_message_admission();
+        #[cfg(feature = "verif")]
+        crate::verif::point("drain.status");
         let _ = self
             .status
             .fetch_update(Ordering::SeqCst, Ordering::SeqCst, |f| {
@@ -342,6 +364,8 @@ impl ActorProperties {
     /// Wait for the actor to exit
     pub(crate) async fn wait(&self) {
         let notified = self.wait_handler.notified();
+        #[cfg(feature = "verif")]
+        crate::verif::point("wait.created");
         if self.get_status() != ActorStatus::Stopped {
             notified.await;
         }
@@ -357,9 +381,24 @@ impl ActorProperties {
         Ok(())
     }
 
+    /// Raw admission word (verification hook): (closed, marker_sent, count).
+    #[cfg(feature = "verif")]
+    pub(crate) fn verif_admission_word(&self) -> (bool, bool, usize) {
+        let w = self.message_admission.load(Ordering::SeqCst);
+        (
+            w & MESSAGE_ADMISSION_CLOSED != 0,
+            w & DRAIN_MARKER_SENT != 0,
+            w & MESSAGE_ADMISSION_COUNT_MASK,
+        )
+    }
+
     pub(crate) fn notify_stop_listener(&self) {
+        #[cfg(feature = "verif")]
+        crate::verif::point("notify.waiters");
         self.wait_handler.notify_waiters();
         // Preserve one permit for a waiter created after the actor stopped.
+        #[cfg(feature = "verif")]
+        crate::verif::point("notify.one");
         self.wait_handler.notify_one();
     }
 }
